@@ -408,5 +408,6 @@ func checkC19(w *World, r *Run) {
 		}
 		r.Check(fillOK, rulePart, "cachePartStore.GetPart removes the key when filling the cache failed", fn.Pos(), "Set error → cache.Remove(cacheKey) on every path", "a fill that failed half-way (reader closed early, part too large) leaves its entry behind")
 	}
+	checkCacheFillCompletion(w, r)
 	r.NotCovered("races between a cache fill and a concurrent delete/replace of the same part (a fill that started before the delete can re-insert after the after-commit invalidation), eviction-policy arithmetic, and the runtime absence of data races as such — the rules decide the lock discipline and the publish-whole-values shape that are necessary for it")
 }
